@@ -142,10 +142,16 @@ add(Contract(
             "fresh_since(exc) and fresh_since(exc.fields_stack)",
         ],
     },
-    loops={0: LoopSpec(["0 <= it", "unchanged(fragments)"], ghost={'g_in_sync': 'True'}),
-           1: LoopSpec(["0 <= it", "WF(fragments)", "fragments.current_offset >= 0", "k.has_ipp"],
+    loops={0: LoopSpec(["0 <= it", "unchanged(fragments)", "g_sync_calls == it"], ghost={'g_in_sync': 'True'},
+                       ghost_havoc=['g_sync_calls']),
+           1: LoopSpec(["0 <= it", "WF(fragments)", "fragments.current_offset >= 0", "k.has_ipp",
+                        "g_sync_calls == sync_len_pack(class_of(self))"],
                        ghost={'g_cur': 'fragments.current_offset', 'g_idx': 'it', 'g_in_sync': 'False'})},
-    ghost_init={'g_in_sync': 'False'}, ghost_kinds={'g_idx': 'int', 'g_cur': 'int', 'g_in_sync': 'bool'},
+    ghost_init={'g_in_sync': 'False', 'g_sync_calls': '0'},
+    ghost_kinds={'g_idx': 'int', 'g_cur': 'int', 'g_in_sync': 'bool', 'g_sync_calls': 'int'},
+    # every descriptor sync hook has run before the first field is serialised (C17)
+    call_effects={'SYNC.pack': {'g_sync_calls': 'g_sync_calls + 1'}},
+    call_asserts={'FIELD.pack': ["g_sync_calls == sync_len_pack(class_of(self))"]},
     known={
         'no OtherException* escapes': dict(id='K12a', case="g_in_sync"),
         # K12b: a field whose pack moves the cursor before failing (a repeated field failing at its
@@ -253,3 +259,33 @@ add(Contract(
     ensures=[], raises={},       # never raises
     loops={0: LoopSpec(["0 <= it"])},
     modifies=[], allocates=True, returns='str'))
+
+# ---------------------------------------------------------------- Prototype (C13, C19): defaults of references
+# nothing mutable reachable from v (one level: its slots) is older than the pre-state
+define('deep_fresh(v)',
+       "fresh_since(v) and forall_slots_fresh(v)")
+
+add(Contract(
+    'packet:Prototype.__init__',
+    params={'self': 'ref:Prototype', 'pkt': 'ref:Packet'},
+    ensures=[
+        # the prototype keeps a snapshot - a pickled blob or a deep copy - never the live packet itself
+        "not same(self.template, pkt)",
+        "isprim_or_blob(self.template) or deep_fresh(self.template)",
+        "self.clone == 'packet:Prototype._clone_from_pickle' or self.clone == 'packet:Prototype._clone_from_live_obj'",
+    ],
+    modifies=['self.template', 'self.clone'], allocates=True))
+
+add(Contract(
+    'packet:Prototype._clone_from_live_obj',
+    params={'self': 'ref:Prototype'},
+    # a fresh copy that shares no mutable sub-object with the template (and hence with other clones)
+    ensures=["isprim(result) or deep_fresh(result)"],
+    modifies=[], allocates=True, returns='dyn'))
+
+add(Contract(
+    'packet:Prototype._clone_from_pickle',
+    params={'self': 'ref:Prototype'},
+    ensures=["isprim(result) or deep_fresh(result)"],
+    raises={'OtherException*': []},
+    modifies=[], allocates=True, returns='dyn'))
